@@ -248,7 +248,7 @@ HasS(r) == r.nsamples >= 1
 Ty(r) == IF HasS(r) THEN r.s.ty ELSE r.ty
 AbortsHere(c, r) == AbortExpected(c) /\ r.ok /\ r.w > 0
 
-ReqClauses == {"C04_TimingOrder", "C04_ServiceTimeIsWireSpan", "C04_NotBeforeSchedule", "C04_LatencyFromSchedule",
+ReqClauses == {"C04_TimingOrder", "C04_ProcessingWithinRequest", "C04_ServiceTimeIsWireSpan", "C04_NotBeforeSchedule", "C04_LatencyFromSchedule",
                "C04_LatencyAtLeastService", "C04_UnthrottledLatencyIsService", "C04_OneSamplePerRequest", "C04_SampleCarries",
                "C05_WarmupFlagIter", "C05_WarmupFlagTime", "C05_StopsAfterPeriod", "C05_TypeMonotone", "C05_Progress",
                "C05_SchedMonotone", "C05_DeterministicSpacing", "C05_RampUp"}
@@ -256,6 +256,8 @@ ReqClauses == {"C04_TimingOrder", "C04_ServiceTimeIsWireSpan", "C04_NotBeforeSch
 ReqClause(name, c, ts, prev, r, tol) ==
   CASE name = "C04_TimingOrder" ->            \* processing_time >= service_time >= 0
          HasS(r) => (r.s.svc >= 0 /\ r.s.proc >= r.s.svc - tol)
+    [] name = "C04_ProcessingWithinRequest" -> \* service time + client-side overhead OF THIS REQUEST: nothing from before the request
+         HasS(r) => r.s.proc <= r.ret - r.issue + tol   \* was issued (the wait for the scheduled time is not processing time)
     [] name = "C04_ServiceTimeIsWireSpan" ->  \* service time = span between sending the request and receiving the response
          HasS(r) => Near(r.s.svc, r.we - r.ws, tol)
     [] name = "C04_NotBeforeSchedule" ->      \* throttled: not issued before the scheduled time
